@@ -291,6 +291,24 @@ pub fn case_env(sc: &Scenario) -> String {
     }
     let mut valid: Vec<String> = creators.clone();
     valid.extend(salted.iter().map(|x| x.1.clone()));
+    // every other string mentioned anywhere in the scenario (e.g. a guessed future contract address beyond
+    // the enumerated instance numbers) that the chain's Api (cosmwasm-std's MockApi, not code under test) accepts
+    fn strings(v: &serde_json::Value, out: &mut Vec<String>) {
+        match v {
+            serde_json::Value::String(s) => out.push(s.clone()),
+            serde_json::Value::Array(a) => a.iter().for_each(|x| strings(x, out)),
+            serde_json::Value::Object(o) => o.values().for_each(|x| strings(x, out)),
+            _ => {}
+        }
+    }
+    let mut mentioned = vec![];
+    strings(&serde_json::to_value(sc).unwrap(), &mut mentioned);
+    let api = cosmwasm_std::testing::MockApi::default();
+    for s in mentioned {
+        if s.starts_with("cosmwasm1") && cosmwasm_std::Api::addr_validate(&api, &s).is_ok() {
+            valid.push(s);
+        }
+    }
     valid.sort();
     valid.dedup();
     format!(
